@@ -587,3 +587,12 @@ CHECKS['C20'].update(text=CHECKS['C20']['text'] + ' B11: the configuration parse
                      'directly or by handing it to a callee as a writable buffer).')
 CHECKS['C06'].update(text=CHECKS['C06']['text'] + ' WID3: a size value (uint16_t / size_t expression over a ...size quantity) is not stored into '
                      'a local or returned through a narrower integer type unless clamped or masked first.')
+
+
+# ---- wave-17 extensions -------------------------------------------------------------------------------------------------------
+CHECKS['C15'].update(text=CHECKS['C15']['text'] + ' GR2: a sentinel-terminated result array (getmulti) is closed - sentinel written behind the last '
+                     'stored element - on every path on which it is handed to a scanning consumer (freemulti) or returned.')
+CHECKS['C11'].update(text=CHECKS['C11']['text'] + ' GR2 (sentinel-terminated result arrays closed before they are scanned) as under C15.')
+CHECKS['C17'].update(text=CHECKS['C17']['text'] + ' CU4 treats a loop flag handed to a helper by address as unknown after that call (it is still known '
+                     'at the loop entry).')
+CHECKS['C19'].update(text=CHECKS['C19']['text'] + ' W1 evaluates index-form scans (str[i] through a helper predicate) like cursor-form scans.')
